@@ -3582,3 +3582,78 @@ func runConstCompareRefusesNull(c *Ctx, rule string) {
 		c.Fail(rule, "runtime/sam/expr.Comparison refuses null values", fn.Pos(), "the constant comparison decodes a null value like a zero value (`k < 5` matches null(int64)) while the pruner treats a null key as the maximum: an object whose only matching row has a null key is pruned, so the optimized query returns fewer rows than a full scan")
 	}
 }
+
+// ---- C10-P3: recombining partials never panics on a value.
+func runPartialRecombinationNoPanic(c *Ctx, rule string) {
+	p := c.P
+	c.Rule(rule, "groupby's valRow.consumeAsPartial contains no explicit panic: a partial result is data (the partial of any() over error values is an error value) and is handed to the aggregate's ConsumeAsPartial, so a query that runs sequentially also runs when its table spills or its plan is parallel")
+	fn := p.Func("(runtime/sam/op/groupby.valRow).consumeAsPartial")
+	if fn == nil {
+		c.Undecided(rule, "(runtime/sam/op/groupby.valRow).consumeAsPartial", "anchor does not resolve")
+		return
+	}
+	var bad token.Pos
+	calls := false
+	for _, b := range fn.Blocks {
+		for _, in := range b.Instrs {
+			if pn, ok := in.(*ssa.Panic); ok && pn.Pos().IsValid() {
+				bad = pn.Pos()
+			}
+			if ci, ok := in.(ssa.CallInstruction); ok && ci.Common().IsInvoke() && ci.Common().Method.Name() == "ConsumeAsPartial" {
+				calls = true
+			}
+		}
+	}
+	switch {
+	case bad.IsValid():
+		c.Fail(rule, "(runtime/sam/op/groupby.valRow).consumeAsPartial", bad, "a partial value of a certain kind makes the recombination panic: `any(e) by k` over error values works in memory but crashes as soon as the table spills (`with -limit`) or the summarize is split across parallel legs")
+	case !calls:
+		c.Undecided(rule, "(runtime/sam/op/groupby.valRow).consumeAsPartial", "no call of ConsumeAsPartial found")
+	default:
+		c.OK(rule, "(runtime/sam/op/groupby.valRow).consumeAsPartial", fn.Pos(), "no explicit panic; partials are handed to the aggregates")
+	}
+}
+
+// ---- C10-K2: the spill order distinguishes exactly what the table distinguishes.
+func runSpillKeyOrderTotal(c *Ctx, rule string) {
+	p := c.P
+	c.Rule(rule, "the comparator that orders spilled group-by rows and decides `same key` compares, for every key, the value and then its type: the in-memory table keys on type and bytes, while the value comparison alone coerces numbers (1, 1(uint64) and 1. tie), so without the type the groups a query returns depend on whether the table spilled")
+	fn := p.Func("runtime/sam/op/groupby.NewAggregator")
+	if fn == nil {
+		c.Undecided(rule, "runtime/sam/op/groupby.NewAggregator", "anchor does not resolve")
+		return
+	}
+	typeAware := false
+	n := 0
+	for _, ci := range allCalls(fn) {
+		if calleeName(ci.Common()) != "runtime/sam/expr.NewSortEvaluator" {
+			continue
+		}
+		n++
+		mi, ok := ci.Common().Args[0].(*ssa.MakeInterface)
+		if !ok {
+			continue
+		}
+		t := mi.X.Type()
+		if pt, ok := t.Underlying().(*types.Pointer); ok {
+			t = pt.Elem()
+		}
+		ev := p.Func("(*" + namedOf(t) + ").Eval")
+		if ev == nil {
+			continue
+		}
+		for _, ec := range allCalls(ev) {
+			if nm := calleeName(ec.Common()); nm == "(*super.Context).LookupTypeValue" || nm == "super.EncodeTypeValue" {
+				typeAware = true
+			}
+		}
+	}
+	switch {
+	case n == 0:
+		c.Undecided(rule, "runtime/sam/op/groupby.NewAggregator", "the spill comparator's sort expressions were not found")
+	case typeAware:
+		c.OK(rule, "runtime/sam/op/groupby.NewAggregator spill comparator", fn.Pos(), "orders by key value, then key type")
+	default:
+		c.Fail(rule, "runtime/sam/op/groupby.NewAggregator spill comparator", fn.Pos(), "spilled rows are ordered and matched by key value only: numerically equal keys of different types tie, so `count() by k` over 1, 1(uint64) and 1. returns three groups in memory and one group (count 5) once the table spills")
+	}
+}
